@@ -1,4 +1,5 @@
 #!/bin/bash
+export VERIF_EVIDENCE_DIR=/tmp/verif-scratch-evidence
 # usage: tools/mut.sh <file-under-/repo/src/halmos> <python-regex-old> <new> <Cxx>   (applies, checks, always reverts)
 f=/repo/src/halmos/$1
 cp "$f" /tmp/mut.bak
